@@ -22,7 +22,8 @@ EXPLANATION = (
     "side condition (C14.JUSTIFY) or a stated reason. C14.PURE: no reachable function stores to an attribute of the "
     "shared parser/parserinfo objects, a module global or a class table, none is memoised, and the ambient reads are "
     "exactly the clock/time-zone ones. C14.TERM: the scan loop of _parse, the lexer loops and the recombination loop "
-    "make progress on every path. C14.TYPE: non-text input reaches the explicit TypeError before any other use.")
+    "make progress on every path. C14.TYPE: non-text input reaches the explicit TypeError before any other use."
+    ' C14.STATELESS: no function of dateutil.parser._parser stores into, or mutates, a class object or a module-level container (token lists are edited in place: a cached list would be edited twice).')
 ASSUMPTIONS = [
     "sound with respect to the primitive-raiser table in sa/exc.py; user-supplied tzinfos callables/objects and tzinfo methods of foreign classes are opaque",
     "methods of stdlib objects (datetime.tzname(), warnings.warn, StringIO.read) do not raise",
